@@ -414,6 +414,13 @@ def run(prog, rep):
                     vals = prog.const_eval(r, mod, nxpg)
                 except Exception:
                     vals = None
+                if vals is None and isinstance(r, ast.Name):
+                    # a local naming the table (assigned once, from constants)
+                    lits = [a.value for a in walk_no_nested(mn) if isinstance(a, ast.Assign) and any(isinstance(t, ast.Name) and t.id == r.id for t in a.targets)]
+                    try:
+                        vals = prog.const_eval(lits[0], mod, nxpg) if len(lits) == 1 else None
+                    except Exception:
+                        vals = None
                 if isinstance(vals, (tuple, list, set, frozenset)) and {'GraphID', 'NodeID', 'Class'} <= set(vals):
                     return ('ident', pos)
             if isinstance(n_, ast.Compare) and len(n_.ops) == 1 and isinstance(n_.ops[0], (ast.Eq, ast.NotEq)):
